@@ -8,3 +8,5 @@ import KojenVerif.Props.C19
 #print axioms KojenVerif.C19.C19_own_namespace_prefix_only
 #print axioms KojenVerif.C19.C19_include_entry
 #print axioms KojenVerif.C19.C19_includes_namespace_faithful
+#print axioms KojenVerif.C19.C19_declared_before_use
+#print axioms KojenVerif.C19.C19_enum_never_forward_declared
